@@ -29,21 +29,24 @@ Definition enc_out (o : out) : list Z :=
 
 Record world := mkW {
   w_stores : list st;
-  w_mux : list nat;            (* ObjectProviderMultiplexer.providers, as indices into w_stores *)
-  w_gens : list (gen * nat)    (* generator, provider selector: k < #stores = store k, else the multiplexer *)
+  w_mux : list (list nat);     (* the multiplexers alive: each one's .providers, as indices into w_stores *)
+  w_gens : list (gen * nat)    (* generator, provider selector: k < #stores = store k, else multiplexer k - #stores *)
 }.
 
 Inductive wop :=
 | WS (k : nat) (o : op)                       (* call on store k *)
-| WMux (l : list nat)                         (* mux.providers = [stores[i] for i in l] *)
+| WMux (m : nat) (l : list nat)               (* muxes[m].providers = [..] / muxes[m] = ObjectProviderMultiplexer([..]) *)
+| WMuxApp (m k : nat)                         (* muxes[m].providers.append(stores[k]) *)
 | WGen (g : nat) (proposal : option string)   (* gens[g].generate_id(proposal) *)
 | WNewFrom (k j : nat)                        (* stores[k] = DictObjectStore(stores[j])   (providers re-bound) *)
 | WNewList (k : nat) (xs : list obj).         (* stores[k] = DictObjectStore(<list / tuple / generator of xs>) *)
 
 Definition store_at (w : world) (k : nat) : st := nth k (w_stores w) [].
-Definition mux_of (w : world) : provider := mux (map (fun k => lookup (store_at w k)) (w_mux w)).
+Definition mux_over (w : world) (l : list nat) : provider := mux (map (fun k => lookup (store_at w k)) l).
+Definition mux_at (w : world) (m : nat) : provider := mux_over w (nth m (w_mux w) []).
 Definition prov_of (w : world) (sel : nat) : provider :=
-  if Nat.ltb sel (List.length (w_stores w)) then lookup (store_at w sel) else mux_of w.
+  if Nat.ltb sel (List.length (w_stores w)) then lookup (store_at w sel)
+  else mux_at w (sel - List.length (w_stores w)).
 Definition total_keys (w : world) : nat := List.length (flat_map (map fst) (w_stores w)).
 
 Fixpoint set_nth {A} (n : nat) (x : A) (l : list A) : list A :=
@@ -59,7 +62,8 @@ Definition wstep (pool : list ident) (w : world) (o : wop) : world * list Z :=
   | WS k o =>
     let '(s', r) := step idof (store_at w k) o in
     (mkW (set_nth k s' (w_stores w)) (w_mux w) (w_gens w), enc_out r)
-  | WMux l => (mkW (w_stores w) l (w_gens w), [0])
+  | WMux m l => (mkW (w_stores w) (set_nth m l (w_mux w)) (w_gens w), [0])
+  | WMuxApp m k => (mkW (w_stores w) (set_nth m (nth m (w_mux w) [] ++ [k])%list (w_mux w)) (w_gens w), [0])
   | WNewFrom k j =>
     (* iterating the source store yields its objects in order; an exception of the constructor leaves stores[k] *)
     match construct idof (iter (store_at w j)) with
@@ -85,16 +89,18 @@ Definition wstep (pool : list ident) (w : world) (o : wop) : world * list Z :=
 Definition absent_id : ident := "zz#absent"%string.
 
 (* after each call: its outcome; per store len and iteration order; per identifier what every
-   store and the multiplexer answer; per object which stores contain it (by identity) *)
+   store and every multiplexer answer; per object which stores contain it (by identity) *)
 Definition observe (pool : list ident) (w : world) (r : list Z) : list (list Z) :=
   let idof := fun t => nth t pool EmptyString in
-  let mx := mux_of w in
   r :: (map (fun s => 20 :: zn (len s) :: map zn (iter s)) (w_stores w)
    ++ map (fun i => 22 :: flat_map (fun s => enc_out (get_identifiable s i) ++ [zb (contains_id s i)]
                                              ++ enc_out (provider_get (lookup s) i (Some 0%nat)))
                                    (w_stores w)
-                       ++ enc_out (match mx i with Some x => OObj x | None => OKeyError end)
-                       ++ enc_out (provider_get mx i None) ++ enc_out (provider_get mx i (Some 0%nat)))
+                       ++ flat_map (fun l => let mx := mux_over w l in
+                                             enc_out (match mx i with Some x => OObj x | None => OKeyError end)
+                                             ++ enc_out (provider_get mx i None)
+                                             ++ enc_out (provider_get mx i (Some 0%nat)))
+                                   (w_mux w))
           (pool ++ [absent_id])
    ++ map (fun x => 24 :: map (fun s => zb (contains_obj idof s x)) (w_stores w))
           (seq 0 (List.length pool)))%list.
@@ -106,7 +112,7 @@ Fixpoint wtrace (pool : list ident) (w : world) (ops : list wop) : list (list (l
   end.
 
 Definition winit (nstores : nat) (gens : list (string * nat)) : world :=
-  mkW (repeat [] nstores) [] (map (fun p => (mkGen (fst p) [], snd p)) gens).
+  mkW (repeat [] nstores) [[]; []] (map (fun p => (mkGen (fst p) [], snd p)) gens).   (* two multiplexers *)
 
 (* case = (pool of identifiers (object t has id pool[t]), number of stores, generators, ops, hash) *)
 Definition check_case (c : list ident * nat * list (string * nat) * list wop * Z) : bool :=
